@@ -111,8 +111,11 @@ class Ctx:
         known_findings.json."""
         key = mech or "-"
         self.fail_counts[key] = self.fail_counts.get(key, 0) + 1
-        per = sum(1 for f in self.fails if (f["mech"] or "-") == key)
-        if per < (3 if mech else MAX_FAILS) and len(self.fails) < 200:
+        # keep a few examples per (mechanism, kind of failure) so one noisy failure cannot crowd out others
+        k2 = (key, what[:70])
+        self._per = getattr(self, "_per", {})
+        self._per[k2] = self._per.get(k2, 0) + 1
+        if self._per[k2] <= (3 if mech else 6) and len(self.fails) < 400:
             self.fails.append({"mech": mech, "what": what, "case": canon.jsonable(case),
                                "detail": canon.jsonable(detail)})
 
